@@ -29,3 +29,9 @@ Theorem C08_contains : forall (Vr : Type) (E : EqDec Vr) (fuel : nat) (G : cfg V
   contains fuel G w = Some b -> (b = true <-> LangG G w).
 Proof. exact (@contains_spec). Qed.
 Print Assumptions C08_contains.
+
+(* ... and it always finishes *)
+From PFL Require Import Proofs.CfgNfTotal.
+Theorem C08_contains_total : forall (Vr : Type) (E : EqDec Vr) (G : cfg Vr) (n : nat) (w : list N), exists b, contains (S n) G w = Some b.
+Proof. exact (@contains_total). Qed.
+Print Assumptions C08_contains_total.
